@@ -126,10 +126,10 @@ CLAIMED = {
     ),
     "C13": dict(
         category="other",
-        text="The find task is verified as a trace for every timing configuration (0..4 repetitions enumerated) while the set of known offers changes arbitrarily during every wait: each round sends, to the multicast group, FindService entries for exactly the watched services with no matching live offer at that instant (ids and wildcards copied, configured TTL), delays double, at most 1 + repetitions rounds, and an empty round ends the task for good; _service_found and the truthfulness of the known-offer store are under contract. Two watched filters (bounded shape), hence level other.",
+        text="The find task is verified as a trace for every timing configuration (0..4 repetitions enumerated) while the set of known offers changes arbitrarily during every wait: each round sends, to the multicast group, FindService entries for exactly the watched services with no matching live offer at that instant (ids and wildcards copied, configured TTL), delays double, at most 1 + repetitions rounds, and an empty round ends the task for good; _service_found and the truthfulness of the known-offer store are under contract. The number of watched filters is unbounded (comprehension contract: an arbitrary watched filter contributes its entry iff it has no live offer; the round's list is what is sent); _service_found itself is checked against stores of up to three offers (bounded shape), hence level other.",
         design_ref="DESIGN.md 4/C13",
-        technique="coroutine as sequential procedure with interference at every await, symbolic execution of the real AST + SMT",
-        note=TRUST + LOOP + "; random.uniform axiom",
+        technique="coroutine as sequential procedure with interference at every await, comprehension contract for the per-round entry list, symbolic execution of the real AST + SMT",
+        note=TRUST + LOOP + "; random.uniform axiom; a filtered list comprehension is empty iff no element passes the filter (semantics of comprehensions)",
     ),
     "C14": dict(
         category="other",
